@@ -437,11 +437,11 @@ func (fv *FuncVC) call(x *ssa.Call) {
 
 // shortCallee is the callee name used in call/after clauses.
 func shortCallee(key string) string {
-	short := key
-	if i := strings.LastIndex(short, "."); i >= 0 && !strings.HasPrefix(key, "dyn:") && !strings.HasPrefix(key, "iface:") {
+	short := strings.TrimPrefix(strings.TrimPrefix(key, "dyn:"), "iface:")
+	if i := strings.LastIndex(short, "."); i >= 0 {
 		short = short[i+1:]
 	}
-	return strings.TrimPrefix(strings.TrimPrefix(short, "dyn:"), "iface:")
+	return short
 }
 
 // ghostAfter executes the ghost assignments anchored after this call site.
@@ -496,11 +496,7 @@ func shortTypeNameStd(t types.Type) string {
 func (fv *FuncVC) applyContract(site ssa.Instruction, fc *FuncContract, key string, args []Term, argTypes []types.Type, resTuple *types.Tuple) []Term {
 	n := fv.callOrdinal(site, key)
 	fv.callCount[key] = n + 1
-	short := key
-	if i := strings.LastIndex(short, "."); i >= 0 && !strings.HasPrefix(key, "dyn:") && !strings.HasPrefix(key, "iface:") {
-		short = short[i+1:]
-	}
-	short = strings.TrimPrefix(strings.TrimPrefix(short, "dyn:"), "iface:")
+	short := shortCallee(key)
 	pre := fv.cur.clone()
 	env := fv.newEnv(fv.cur, pre)
 	env.callee = true
@@ -551,8 +547,10 @@ func (fv *FuncVC) applyContract(site ssa.Instruction, fc *FuncContract, key stri
 		m0 := eenv.intExpr(fv.FC.Decr[0].E, fv.FC.Decr[0].Pos)
 		fv.oblige("decreases", fmt.Sprintf("%s#%d", short, n), and(le(intLit(0), m0), lt(m, m0)), site.Pos(), "recursion measure decreases")
 	}
-	// havoc frame
+	// havoc frame (the stepwise frame check runs after the postconditions have been assumed)
+	fv.noStepFrame = true
 	fv.havocModifies(fc, env, pre)
+	fv.noStepFrame = false
 	// results
 	var results []Term
 	nres := 0
@@ -581,6 +579,11 @@ func (fv *FuncVC) applyContract(site ssa.Instruction, fc *FuncContract, key stri
 	env.st = fv.cur
 	for _, c := range fc.Ensures {
 		fv.assumeHere(env.boolExpr(c.E, c.Pos))
+	}
+	if m, ok := fv.cur.heaps["M"]; ok {
+		if pm, ok2 := pre.heaps["M"]; !ok2 || pm.S != m.S {
+			fv.setHeap(fv.cur, "M", m) // triggers the stepwise frame obligation
+		}
 	}
 	return results
 }
